@@ -377,16 +377,16 @@ Definition judged_one (T : table) (nf na : bool) (m p : string) (r : response) :
   end.
 
 Lemma response_ok_judged : forall T nf na m p r,
-  response_ok T nf na (mkReq m p "" r []) = true <-> judged_one T nf na m p r.
+  response_ok T nf na (mkReq m p "" r [] 0) = true <-> judged_one T nf na m p r.
 Proof.
   intros T nf na m p r. unfold judged_one. destruct (clean_path p) as [segs|] eqn:CP.
-  - apply (L_response_ok_iff T nf na (mkReq m p "" r []) segs). exact CP.
-  - apply (L_response_ok_unrooted T nf na (mkReq m p "" r [])). exact CP.
+  - apply (L_response_ok_iff T nf na (mkReq m p "" r [] 0) segs). exact CP.
+  - apply (L_response_ok_unrooted T nf na (mkReq m p "" r [] 0)). exact CP.
 Qed.
 
 Lemma response_ok_fields : forall T nf na q,
-  response_ok T nf na q = response_ok T nf na (mkReq (qm q) (qp q) "" (qres q) []).
-Proof. intros T nf na [m p c r l]. reflexivity. Qed.
+  response_ok T nf na q = response_ok T nf na (mkReq (qm q) (qp q) "" (qres q) [] 0).
+Proof. intros T nf na [m p c r l k]. reflexivity. Qed.
 
 (* the first read and every later read of the variables of a dispatched request *)
 Definition lates_judged (T : table) (nf na : bool) (m p : string) (r : response) (l : list params) : Prop :=
@@ -408,27 +408,31 @@ Definition req_judged (T : table) (nf na : bool) (q : req) : Prop :=
 
 Lemma L_r_prop_ok_iff : forall c,
   r_prop_ok c = true <->
-  (one_var_name_per_position (table_of (cregs c)) = true ->
-   map accepted (cregobs c) = map accepted (reg_results [] (cregs c)) /\
-   Forall (req_judged (table_of (cregs c)) (cnf c) (cna c)) (creqs c)).
+  ((one_var_name_per_position (table_of (cregs c)) = true ->
+    map accepted (cregobs c) = map accepted (reg_results [] (cregs c))) /\
+   Forall (fun q => one_var_name_per_position (table_at_req c q) = true ->
+                    req_judged (table_at_req c q) (cnf c) (cna c) q) (creqs c)).
 Proof.
-  intro c. unfold r_prop_ok, in_scope.
-  destruct (one_var_name_per_position (table_of (cregs c))).
-  2: { split; [intros _ H; discriminate | reflexivity]. }
-  rewrite andb_true_iff, list_eqb_verdict, forallb_forall, Forall_forall.
-  assert (J : forall q, response_ok (table_of (cregs c)) (cnf c) (cna c) q
-                        && lates_ok (table_of (cregs c)) (cnf c) (cna c) (qm q) (qp q) (qres q) (qlate q) = true <->
-                        req_judged (table_of (cregs c)) (cnf c) (cna c) q).
-  { intro q. unfold req_judged. rewrite andb_true_iff, response_ok_fields, response_ok_judged, lates_ok_iff.
-    reflexivity. }
-  split.
-  - intros [E F] _. split; [symmetry; exact E|]. intros q I. apply J. apply F. exact I.
-  - intro H. destruct (H eq_refl) as [E F]. split; [symmetry; exact E|]. intros q I. apply J. apply F. exact I.
+  intro c. unfold r_prop_ok, in_scope. rewrite andb_true_iff, forallb_forall, Forall_forall.
+  assert (J : forall q, r_req_ok c q = true <->
+                        (one_var_name_per_position (table_at_req c q) = true ->
+                         req_judged (table_at_req c q) (cnf c) (cna c) q)).
+  { intro q. unfold r_req_ok, req_judged. destruct (one_var_name_per_position (table_at_req c q)).
+    - rewrite andb_true_iff, response_ok_fields, response_ok_judged, lates_ok_iff. tauto.
+    - split; [intros _ H; discriminate | reflexivity]. }
+  assert (V : (if one_var_name_per_position (table_of (cregs c))
+               then list_eqb same_verdict (reg_results [] (cregs c)) (cregobs c) else true) = true <->
+              (one_var_name_per_position (table_of (cregs c)) = true ->
+               map accepted (cregobs c) = map accepted (reg_results [] (cregs c)))).
+  { destruct (one_var_name_per_position (table_of (cregs c))).
+    - rewrite list_eqb_verdict. split; [intros E _; symmetry; exact E | intro H; symmetry; apply H; reflexivity].
+    - split; [intros _ H; discriminate | reflexivity]. }
+  rewrite V. split; intros [A B]; (split; [exact A|]); intros q I; apply J; apply B; exact I.
 Qed.
 
 (* the verified model hands the SAME bindings to every read: they pass as the first read does *)
 Lemma lates_ok_same : forall T nf na m p r l,
-  response_ok T nf na (mkReq m p "" r []) = true ->
+  response_ok T nf na (mkReq m p "" r [] 0) = true ->
   match r with RHandler _ ps => Forall (eq ps) l | _ => l = [] end ->
   lates_ok T nf na m p r l = true.
 Proof.
@@ -465,7 +469,7 @@ Proof.
   - cbn [andb] in I. destruct (sqm q =? "OPTIONS").
     + destruct I as [I|[]]. rewrite <- I in *. rewrite LT. split; reflexivity.
     + apply in_map_iff in I. destruct I as [x [EQ I]]. rewrite <- EQ in *. subst r. rewrite orb_true_r in I.
-      pose proof (L_model_passes_judgement (sc_nf c) true regs (mkReq (sqm q) (sqp q) "" x []) I) as J.
+      pose proof (L_model_passes_judgement (sc_nf c) true regs (mkReq (sqm q) (sqp q) "" x [] 0) I) as J.
       destruct x as [h ps|a| | |]; cbn [cors_view] in *.
       * split; [exact J | apply lates_ok_same; assumption].
       * exfalso. unfold response_ok in J. cbn [qp qm qres] in J.
@@ -476,7 +480,7 @@ Proof.
       * rewrite LT. split; [exact J | reflexivity].
   - cbn [andb] in I. apply in_map_iff in I. destruct I as [x [EQ I]]. rewrite <- EQ in *. subst r.
     rewrite orb_false_r in I.
-    pose proof (L_model_passes_judgement (sc_nf c) (sc_na c) regs (mkReq (sqm q) (sqp q) "" x []) I) as J.
+    pose proof (L_model_passes_judgement (sc_nf c) (sc_na c) regs (mkReq (sqm q) (sqp q) "" x [] 0) I) as J.
     split; [exact J|]. apply lates_ok_same; [exact J|].
     destruct x; exact LT.
 Qed.
@@ -498,7 +502,7 @@ Proof.
     pose proof (find_none _ _ FE e I) as N. cbn beta in N. apply negb_false_iff in N.
     destruct e; try discriminate. reflexivity.
   - apply andb_true_iff in H. destruct H as [H _]. unfold sresponse_ok in H. rewrite NC, ER in H.
-    apply (L_response_ok_iff _ _ _ (mkReq (sqm q) (sqp q) "" resp []) segs CP). exact H.
+    apply (L_response_ok_iff _ _ _ (mkReq (sqm q) (sqp q) "" resp [] 0) segs CP). exact H.
 Qed.
 
 (* ... and every later read of the variables of a dispatched request was judged like the first *)
